@@ -3,7 +3,8 @@
 (* laws relating the definitions to each other.  Every generated string becomes a test input.              *)
 EXTENDS Lexical
 CONSTANTS Mode,    \* "time" : slot-wise date/time strings;  "num" : all strings over NumSyms up to MaxLen
-          MaxStr, Rich
+          MaxStr, Rich,
+          EndAfterJunk   \* TRUE: a string ends with its junk / blanked slot (keeps the rich generator small)
 
 S(str) == str   \* strings are written as tuples of code points below
 Years  == IF Rich THEN {<<48,57,57,57>>, <<49,48,48,48>>, <<49,57,48,48>>, <<50,48,48,48>>, <<50,48,50,51>>, <<50,48,50,52>>, <<57,57,57,57>>}
@@ -30,12 +31,12 @@ NextTime == \/ /\ slot <= 8 /\ \E c \in Choices(slot) : s' = s \o c
                /\ slot' \in (IF slot = 7 THEN {8, 9} ELSE IF slot = 8 THEN {9} ELSE {slot + 1, 8, 9})
                /\ UNCHANGED junked
             \/ /\ slot <= 8 /\ ~junked /\ (Rich \/ slot \in {1, 4, 8}) /\ \E j \in Junk : s' = s \o j
-               /\ junked' = TRUE /\ UNCHANGED slot
+               /\ junked' = TRUE /\ slot' = (IF EndAfterJunk THEN 9 ELSE slot)
             \* a slot of the right width in which a digit is replaced by a blank or a letter (once per string)
             \/ /\ slot <= 6 /\ ~junked /\ (Rich \/ slot \in {2, 3, 5})
                /\ \E c \in Choices(slot), k \in {1, 2}, ch \in (IF Rich THEN {32, 97} ELSE {32}) :
                       k <= Len(c) /\ s' = s \o [c EXCEPT ![k] = ch]
-               /\ slot' \in {slot + 1, 9}
+               /\ slot' \in (IF EndAfterJunk THEN {9} ELSE {slot + 1, 9})
                /\ junked' = TRUE
 InitNum == s = <<>> /\ slot = 0 /\ junked = FALSE
 NextNum == Len(s) < MaxStr /\ \E c \in NumSyms : s' = Append(s, c) /\ UNCHANGED <<slot, junked>>
